@@ -75,7 +75,12 @@ def run_tree(cfg):
         r.case(explorer.digest([cfg, ex.choices]), nontrivial=nontriv)
         case = {"cfg": cfg, "choices": ex.choices}
         if rec["exception"] is not None:
-            r.violation(f"C08/exception/{rec['exception'][0]}/{rec['exception'][1]}", rec["exception"], case)
+            from oracles.smc_oracles import check_schedule
+
+            if any(sig.startswith("C06/") for sig, _ in check_schedule(rec)):
+                r.count("observation:run-ended-by-a-schedule-failure (C06's business)")
+            else:
+                r.violation(f"C08/exception/{rec['exception'][0]}/{rec['exception'][1]}", rec["exception"], case)
             continue
         r.outcomes.add(explorer.digest(rec["result"]["log_evidence"]))
         for sig, detail in check_evidence(rec):
@@ -86,8 +91,11 @@ def run_tree(cfg):
             rec2 = ex2.result
             r.case(explorer.digest([vcfg, ex.choices]), nontrivial=nontriv)
             if rec2["exception"] is not None:
-                r.violation(f"C08/exception/{name}/{rec2['exception'][0]}/{rec2['exception'][1]}", rec2["exception"],
-                            {"cfg": vcfg, "choices": ex.choices})
+                from oracles.smc_oracles import check_schedule
+
+                if not any(sig.startswith("C06/") for sig, _ in check_schedule(rec2)):
+                    r.violation(f"C08/exception/{name}/{rec2['exception'][0]}/{rec2['exception'][1]}", rec2["exception"],
+                                {"cfg": vcfg, "choices": ex.choices})
                 continue
             a, b = rec["result"], rec2["result"]
             if a["log_evidence"] != b["log_evidence"] or a["log_evidence_error"] != b["log_evidence_error"]:
